@@ -10,14 +10,14 @@ from checklib import codec
 from gens import docs, sweep, harness
 
 MANIFEST = dict(
-    technique="Coq universal theorem (logical relation over the transformer model: include_position only adds __position__ entries, for every text) + kernel-checked exhaustive evaluation (vm_compute) of the four-flag check on the schema-generated slot product + four-flag extracted-model correspondence",
-    text=("Coq (Props/C13.v): [universal, Proofs/C13U.v] for EVERY text and either comment mode, when the model's loads with include_position and the one without both succeed, the results are equal after removing every __position__ entry at every depth "
-          "(a relation preserved by each of the 48 transformer callbacks, the comments transformer and the final conversion); the one-sided form (plain = positioned with the entries removed) holds when the plain result has no key spelled __position__ and is REFUTED otherwise "
-          "(a METADATA entry with that key is overwritten: known finding, same on the real loads); acceptance is aligned on->off for every text and off->on under a tree-shape guard (PARTIAL: no grammar-conformance theorem for the LR driver's output). "
-          "[finite] for every document of the schema-generated slot product (about 2500 documents, regenerated from the schemas on every run) the model's loads under all three non-plain flag combinations, "
-          "after removing the hidden __position__/__comments__ keys at every depth, equals the plain load - evaluated by the kernel through lexer, LR driver, tree builder with propagate_positions, comment assignment, "
-          "CommentsTransformer and MapfileTransformer. PARTIAL: content transparency of include_comments for all texts is not a theorem; the comments path is a genuinely different recursion "
-          "and is tied to the code by running the extracted model and the real loads under all four flag combinations on the corpus and on generated documents with random # and /* */ comments. "
+    technique="Coq universal theorems (logical relations over the lexer/LR/transformer model: for every text any two of the four loads that succeed agree after removing the hidden keys; acceptance alignment) + kernel-checked exhaustive evaluation (vm_compute) of the four-flag check on the schema-generated slot product + four-flag extracted-model correspondence",
+    text=("Coq (Props/C13.v): [universal] for EVERY text, any two of the four loads (include_position x include_comments) that succeed are equal after removing every __position__ and __comments__ entry at every depth, and whenever one succeeds the plain load succeeds "
+          "(Proofs/C13U*.v, C13C*.v: relations preserved by each of the 48 transformer callbacks, the comments transformer re-entering the main one, comment assignment, the tree builder with propagate_positions and the lexer's comment recording; "
+          "the parser returns trees of the same shape and the same errors in both comment modes). The one-sided form for positions holds when the plain result has no key spelled __position__ and is REFUTED otherwise (known finding, same on the real loads); "
+          "positions on<->off acceptance is aligned for every text (the tree-shape guard is discharged by the grammar-conformance theorem of the LR driver; stated for comments off); comments on->off acceptance holds for every text, off->on is REFUTED "
+          "(an entry spelled __comments__ makes the comments run raise: known finding) and not proved under a guard (PARTIAL). "
+          "[finite] for every document of the schema-generated slot product (about 2500 documents, regenerated from the schemas on every run) all four loads agree and succeed together, evaluated by the kernel. "
+          "The model is tied to the code by running the extracted model and the real loads under all four flag combinations on the corpus and on generated documents with random # and /* */ comments. "
           "The hunter states the property against the real API through loads, open and load, checks the printer clauses, and probes entries whose key is spelled like a bookkeeping key."),
     design_ref="DESIGN.md 7/C13, 11.2",
     note="C13: Lark's propagate_positions and Transformer_InPlace traversal order are modelled.")
@@ -87,8 +87,19 @@ def run(ctx):
     from mappyfile.pprint import PrettyPrinter
     shared_pp = PrettyPrinter()
 
+    opt_printers = {}
+
     def dumps(d, i):
-        # a reused printer for most cases (worker reuse is C12's subject), the module-level API for a share
+        # a reused printer for most cases (worker reuse is C12's subject), the module-level API for a share,
+        # and for every third text a printer with non-default formatting options (the same one for the plain
+        # and the bookkeeping dictionary of that text)
+        if i % 3 == 1:
+            if i not in opt_printers:
+                opt_printers.clear()
+                opt_printers[i] = PrettyPrinter(indent=rng.choice([0, 2, 4, 8]), spacer=rng.choice([" ", "\t"]), quote=rng.choice(['"', "'"]),
+                                                newlinechar=rng.choice(["\n", "\r\n"]), end_comment=rng.random() < 0.5,
+                                                align_values=rng.random() < 0.7, separate_complex_types=rng.random() < 0.3)
+            return opt_printers[i].pprint(d)
         return mappyfile.dumps(d) if i % 8 == 0 else shared_pp.pprint(d)
     try:
         for i, t in enumerate(texts):
